@@ -380,6 +380,13 @@ impl TypeContext {
                     continue;
                 }
 
+                // `self` can also carry bounds: `impl<'a, 'b> Foo<'a, 'b>` with `struct Foo<'x, 'y: 'x>`
+                // lets the body rely on `'b: 'a` without it ever being written down
+                if let Some(param_self) = &method.param_self {
+                    let self_ty: hir::Type = param_self.ty.clone().into();
+                    self.validate_ty_in_method(errors, Param::Input("self"), &self_ty, method)
+                }
+
                 for param in &method.params {
                     self.validate_ty_in_method(
                         errors,
